@@ -554,6 +554,32 @@ def splice_fn(repo, file, item_path, sections, trait=None, nth=0, opts=(), canar
                 rules['X2f-count'] = rules.get('X2f-count', 0) + 1
                 dropped.append('%s:%d Iterator::filter(..).count() with an inline closure written as the loop it abbreviates (X2f)' % (file, toks[body_ci[pm]].line))
                 continue
+            if method == 'filter' and len(dk_words) > 2 and dk_words[2] == 'find_map':
+                # X2f (filter + find_map): `ITER.filter(|P1| B1).find_map(|P2| B2)` written as one loop — an element is offered to the
+                # second closure only when the first one (given a reference) holds
+                kk = re.sub(r'\W', '_', dk_id)
+                after = [k for k in body_ci if k > call_close][:4]
+                if len(after) < 4 or [toks[k].text for k in after[:3]] != ['.', 'find_map', '('] or toks[after[3]].text != '|':
+                    continue
+                fm_open = after[2]
+                fm_close = rs.match_close(toks, fm_open)
+                q2 = posm[after[3]] + 1
+                depth2 = 0
+                while q2 < len(body_ci) and not (toks[body_ci[q2]].text == '|' and depth2 == 0):
+                    if toks[body_ci[q2]].kind == 'open':
+                        depth2 += 1
+                    elif toks[body_ci[q2]].kind == 'close':
+                        depth2 -= 1
+                    q2 += 1
+                pat2 = ' '.join(''.join(t.text for t in toks[after[3] + 1:body_ci[q2]]).split())
+                ed.ins_before(body_ci[p0], '({ let mut cv_any%s = None; %s let mut cv_ait%s = (' % (kk, sections.get('any_before ' + dk_id, '').strip(), kk))
+                ed.replace(body_ci[pm - 1], body_ci[q], ').into_iter(); while let Some(cv_item%s) = cv_ait%s.next() %s { %s if { let %s = &cv_item%s; ' % (
+                    kk, kk, sections.get('any_inv ' + dk_id, '').strip(), sections.get('any_body ' + dk_id, '').strip(), pat, kk))
+                ed.replace(call_close, body_ci[q2], ' } { let %s = cv_item%s; if let Some(cv_v%s) = ' % (pat2, kk, kk))
+                ed.replace(fm_close, fm_close, ' { cv_any%s = Some(cv_v%s); break; } } } %s cv_any%s })' % (kk, kk, sections.get('any_after ' + dk_id, '').strip(), kk))
+                rules['X2f-filter_find_map'] = rules.get('X2f-filter_find_map', 0) + 1
+                dropped.append('%s:%d Iterator::filter(..).find_map(..) with inline closures written as the loop it abbreviates (X2f)' % (file, toks[body_ci[pm]].line))
+                continue
             if method == 'find_map':
                 # X2f (find_map): `ITER.find_map(|PAT| BODY)` written as the loop std defines it to be (the first Some the closure yields)
                 kk = re.sub(r'\W', '_', dk_id)
